@@ -161,7 +161,7 @@ def r2_r3(ctx, cfg, R2="C16.R2", R3="C16.R3"):
         # conditions on the element under which the write runs: exactly `ub.validator == validator`
         ec = []
         for e, c in q.conditions_at(P, F, f, wb):
-            if c[0] == "bool" and any(contains(x, lambda y: y[0] == "bound" and y[1] == "elem") for x in c[1][1]):
+            if c[0] == "bool" and not q.is_derived(c) and any(contains(x, lambda y: y[0] == "bound" and y[1] == "elem") for x in c[1][1]):
                 ec.append(c[1])
         fd = [(p, [fmt(x)[:40] for x in a], pol) for p, a, pol in ec]
         okf = len(ec) == 1 and ec[0][0] == "eq" and ec[0][2] is True and \
